@@ -41,6 +41,7 @@ Variable cfg : config.
 Hypothesis CW : cfg_wf cfg.
 Hypothesis FIX7 : fix_block_dirty cfg = true.
 Hypothesis FIX23 : fix_gpv_drop cfg = true.
+Hypothesis FIX46 : fix_whitelist cfg = true.
 
 (* [strict] = inside a block that rotated the committee: votesChanged was reset on both nodes in OnPersist *)
 Record Sim (strict : bool) (st st' : state) : Prop := mkSim {
@@ -477,6 +478,20 @@ Proof.
   split; [reflexivity|]. destruct S. constructor; simpl; auto; congruence.
 Qed.
 
+Lemma whitelist_set_sim b st st' a fee :
+  Sim b st st' -> SimO b (whitelist_set cfg st a fee) (whitelist_set cfg st' a fee).
+Proof.
+  intros S. unfold whitelist_set. destruct (fee <? 0); [exact I|].
+  split; [reflexivity|]. rewrite (sim_pca _ _ _ S), (sim_pst _ _ _ S). destruct S. constructor; simpl; auto.
+Qed.
+
+Lemma whitelist_remove_sim b st st' a :
+  Sim b st st' -> SimO b (whitelist_remove st a) (whitelist_remove st' a).
+Proof.
+  intros S. unfold whitelist_remove. rewrite (sim_pca _ _ _ S), (sim_pst _ _ _ S).
+  destruct (_ =? 0); [exact I|]. split; [reflexivity|]. destruct S. constructor; simpl; auto.
+Qed.
+
 Lemma dedup_cons i v c c' : dedup c' = dedup c -> dedup ((i, v) :: c') = dedup ((i, v) :: c).
 Proof. intros H. simpl. rewrite H. reflexivity. Qed.
 
@@ -514,6 +529,8 @@ Proof.
   - destruct (committee_witness st t); [apply block_account_sim; exact S|exact I].
   - destruct (committee_witness st t); [apply unblock_account_sim; exact S|exact I].
   - destruct (committee_witness st t); [apply policy_set_sim; exact S|exact I].
+  - destruct (committee_witness st t && i_halt t); [|exact I].
+    destruct fee; [apply whitelist_set_sim|apply whitelist_remove_sim]; exact S.
   - exact I.
   - destruct (i_halt t); [split; [reflexivity|exact S]|exact I].
 Qed.
@@ -669,7 +686,7 @@ Proof.
   assert (Hwfp : WF (L (neo_on_persist cfg st0))) by (rewrite HLp; exact Hwf).
   pose proof (TxStep_of_G cfg _ _ (gas_on_persist_g cfg _ _ _ E1)) as [_ [_ [_ T1]]].
   pose proof (e_wf _ _ _ _ _ _ _ (gas_on_persist_bal cfg CW _ _ _ Hwfp Hok E1) Hwfp) as Hwf1.
-  pose proof (fold_exec_t cfg CW FIX7 FIX23 txs st1 Hwf1 Hok) as [_ [_ [_ T2]]].
+  pose proof (fold_exec_t cfg CW FIX7 FIX23 FIX46 txs st1 Hwf1 Hok) as [_ [_ [_ T2]]].
   unfold post_rewards in E4.
   match type of E4 with context [gas_mint cfg ?s ?a ?g false] => destruct (gas_mint cfg s a g false) as [st3|] eqn:E3; [|discriminate] end.
   pose proof (TxStep_of_G cfg _ _ (gas_mint_g cfg _ _ _ _ _ E3)) as [_ [_ [_ T3]]].
@@ -702,7 +719,7 @@ Proof.
     assert (HLp : L (neo_on_persist cfg st0) = L st) by (rewrite neo_on_persist_L; reflexivity).
     assert (Hwfp : WF (L (neo_on_persist cfg st0))) by (rewrite HLp; exact Hwf).
     pose proof (e_wf _ _ _ _ _ _ _ (gas_on_persist_bal cfg CW _ _ _ Hwfp Hok E1) Hwfp) as Hwf1.
-    pose proof (fold_exec_t cfg CW FIX7 FIX23 txs s1 Hwf1 Hok) as [h2 _]. fold s2 in h2.
+    pose proof (fold_exec_t cfg CW FIX7 FIX23 FIX46 txs s1 Hwf1 Hok) as [h2 _]. fold s2 in h2.
     rewrite h2, h1. unfold neo_on_persist. destruct (height (A st0) mod csize cfg =? 0); reflexivity. }
   assert (Sb : Sim (height (A s2) mod csize cfg =? 0) s2 s2') by (rewrite Hh2; exact S2).
   pose proof (post_rewards_sim s2 s2' Sb) as H4.
@@ -744,7 +761,7 @@ Theorem restart_transparent bs bs' :
   /\ obs cfg (fold_left (step cfg) bs' (reinit cfg st)) = obs cfg (fold_left (step cfg) bs' st).
 Proof.
   intros Hok Hok' st.
-  destruct (cache_coherent_reach cfg CW FIX7 FIX23 CSZ bs Hok) as [C I]. fold st in C, I.
+  destruct (cache_coherent_reach cfg CW FIX7 FIX23 FIX46 CSZ bs Hok) as [C I]. fold st in C, I.
   assert (G : forall s s', Sim false s s' -> Coh cfg s -> Coh cfg s' -> Inv cfg (L s) -> Inv cfg (L s') ->
               Sim false (fold_left (step cfg) bs' s) (fold_left (step cfg) bs' s')).
   { induction Hok' as [|b r Hb Hr IH]; intros s s' S Cs Cs' Is Is'; simpl; [exact S|].
@@ -752,8 +769,8 @@ Proof.
     unfold step at 2 4.
     destruct (run_block cfg s b) as [t|] eqn:E, (run_block cfg s' b) as [t'|] eqn:E'; simpl in H; try contradiction.
     - apply IH; auto.
-      + apply (run_block_coh cfg CW FIX7 FIX23 CSZ _ _ _ Is Cs Hb E).
-      + apply (run_block_coh cfg CW FIX7 FIX23 CSZ _ _ _ Is' Cs' Hb E').
+      + apply (run_block_coh cfg CW FIX7 FIX23 FIX46 CSZ _ _ _ Is Cs Hb E).
+      + apply (run_block_coh cfg CW FIX7 FIX23 FIX46 CSZ _ _ _ Is' Cs' Hb E').
       + apply (Bal_Inv cfg _ _ (run_block_bal cfg CW _ _ _ (inv_wf _ _ Is) Hb E) Is).
       + apply (Bal_Inv cfg _ _ (run_block_bal cfg CW _ _ _ (inv_wf _ _ Is') Hb E') Is').
     - apply IH; auto. }
@@ -795,8 +812,8 @@ Proof.
       unfold step at 2 3.
       destruct (run_block cfg s b) as [t|] eqn:E, (run_block cfg s' b) as [t'|] eqn:E'; simpl in H; try contradiction.
       + apply IH; auto.
-        * apply (run_block_coh cfg CW FIX7 FIX23 CSZ _ _ _ Is Cs H1 E).
-        * apply (run_block_coh cfg CW FIX7 FIX23 CSZ _ _ _ Is' Cs' H1 E').
+        * apply (run_block_coh cfg CW FIX7 FIX23 FIX46 CSZ _ _ _ Is Cs H1 E).
+        * apply (run_block_coh cfg CW FIX7 FIX23 FIX46 CSZ _ _ _ Is' Cs' H1 E').
         * apply (Bal_Inv cfg _ _ (run_block_bal cfg CW _ _ _ (inv_wf _ _ Is) H1 E) Is).
         * apply (Bal_Inv cfg _ _ (run_block_bal cfg CW _ _ _ (inv_wf _ _ Is') H1 E') Is').
       + apply IH; auto.
